@@ -12,7 +12,7 @@ LEVEL = ("hash-seed clause: every place where the ORDER of a set-typed value is 
          "list()/next(iter())/pop(); Jinja for/join/list/first) is enumerated from the typed program (abstract interpreter "
          "types for Python, template interpreter for Jinja); each is sorted, a proven singleton, feeds an order-insensitive "
          "update, or is a frozen diagnostics-only case. Environment-dependent sources are enumerated. Permutation clause "
-         "(narrow): aggregates are sorted, worklist rounds reset their errors, suffix tests on reference paths are "
+         "(narrow): aggregates are sorted, worklist rounds reset their errors and let any item of a round ask for the next one, suffix tests on reference paths are "
          "separator-anchored, re-registrations of shared classes are monotone, late-filled fields of copied "
          "classes are read by templates only on the rendered object itself, context-less imported templates keep no macro-written "
          "module state, the parsed document is written by nobody outside the schema package (a node is visited more than once), what "
@@ -114,8 +114,9 @@ def run(rep: Report, ctx: Any) -> str:
     it, ji = ctx.flow
     rep.rule("R12.1", "no observation of the order of a set reaches generated output: sorted / singleton / order-insensitive / "
                       "diagnostics-only (frozen); no environment-dependent source is used")
-    rep.rule("R12.2", "aggregates are emitted through a sort; worklist rounds take errors from the last round only; suffix tests "
-                      "on reference paths are separator-anchored; updates of already registered classes are monotone")
+    rep.rule("R12.2", "aggregates are emitted through a sort; worklist rounds take errors from the last round only, and what decides about "
+                      "another round is bound monotonically per item (one constant, or accumulated from itself) and can be moved by an item; "
+                      "suffix tests on reference paths are separator-anchored; updates of already registered classes are monotone")
     rep.rule("R12.3", "a field that is filled in after construction (declared Optional, written outside the constructors) of a class whose "
                       "instances are also copied without it is read by templates only on the object handed to render(), never on an "
                       "object reached through fields / loops / macro parameters (that may be a copy taken before the field was filled)")
@@ -277,6 +278,9 @@ def run(rep: Report, ctx: Any) -> str:
         inplace.check(rep, ctx, "R12.7")
     else:
         rep.not_decided += ["in-place registration into the threaded registries (shared rule inplace.py not present in this tree)"]
+    rep.not_decided += ["independence of the tree from what an earlier run left in the output directory (stated by C01 R01.9 / C08 R08.10 / C19 "
+                        "R19.3; evaluating that rule here was tried and given up: it reports correct rewrites of the wipe - a loop over the "
+                        "directory names, a local name for the package directory, `if path.exists(): rmtree(path)` in a helper)"]
     rep.not_decided += ["invariance under permutation as such (class-name collisions and {name}_type_{i} numbering are order-sensitive "
                         "by construction; the property restricts itself to documents without diagnostics)"]
     return LEVEL
@@ -357,6 +361,7 @@ def _round_loops(rep: Report, ix: Any) -> None:
 
     cfgs: dict[str, Any] = {}
     n_rounds = 0
+    n_driven = [0]
     for f in ix.all_functions:
         for loop in [n for n in ast.walk(f.node) if isinstance(n, (ast.While, ast.For, ast.AsyncFor))]:
             # -- the round's scope: the loop body and the private helpers called from it
@@ -461,6 +466,7 @@ def _round_loops(rep: Report, ix: Any) -> None:
                     if c not in stale and any(same.find((g.qual, p)) in stale for p in _paths_in(payload)):
                         stale[c] = m
                         changed = True
+            n_driven[0] += _round_progress(rep, f, loop, scope, same, by_name, alias_calls)
             rep.check(bool(stale), "R12.2", f"{short(f)}::round-structure", "the worklist loop re-queues items but records no error "
                       "together with the re-queue", where(f, loop), lhs=[sorted(work), sorted({m[2] for m in requeues})],
                       rhs="work list re-bound per round, errors recorded with the re-queue")
@@ -511,6 +517,135 @@ def _round_loops(rep: Report, ix: Any) -> None:
                           f"{why}: it accumulates the errors of items that are re-queued, so whether an error is reported depends on the "
                           "order of definitions", where(g, st), lhs=recv, rhs="starts empty in every round")
     rep.floor("progress_loops", n_rounds, 1)
+    rep.floor("round_loops_driven_by_what_the_items_did", n_driven[0], 1)
+
+
+def _shallow(stmts: list[ast.stmt]) -> Any:
+    """the statements of a loop body that belong to the loop itself: not those of the loops (and definitions) nested in it"""
+    for st in stmts:
+        yield st
+        if isinstance(st, (ast.For, ast.AsyncFor, ast.While, ast.FunctionDef, ast.AsyncFunctionDef, ast.ClassDef)):
+            continue
+        for fld in ("body", "orelse", "finalbody"):
+            sub = getattr(st, fld, None)
+            if isinstance(sub, list) and sub and isinstance(sub[0], ast.stmt):
+                yield from _shallow(sub)
+        for h in getattr(st, "handlers", None) or []:
+            yield from _shallow(h.body)
+        for c in getattr(st, "cases", None) or []:
+            yield from _shallow(c.body)
+
+
+def _round_progress(rep: Report, f: Any, loop: ast.AST, scope: list[tuple[Any, list[ast.stmt]]], same: "_Same", by_name: dict[str, Any],
+                    alias_calls: set[int]) -> bool:
+    """Another round is run as long as the last one got somewhere - that is what makes the result independent of the order in which
+    the items are declared, and it only works if ANY item of the round can ask for the next one.  The variables that decide about
+    another round are found by role: what the `while` test of the round loop reads, and what the tests read that lead to a `break` /
+    `return` of the round loop itself.  Such a variable is followed into the helpers of the round under the names it has there
+    (handed in, returned, unpacked).  Every binding of it that is executed once per item - inside a loop nested in the round, in the
+    round body or in a helper, or anywhere in a helper that is called from such a loop - must
+      * be monotone: the same constant everywhere, or a value computed from the variable itself (`x = x or ok`, `n += 1`); a binding
+        to something else makes the last item of the round decide alone;
+      * and, where the round puts the variable back to a constant first, some per-item binding must be able to move it away from
+        that constant (another constant, or an accumulation the constant does not absorb) - or the round computes it afterwards.
+    Indifferent to flag versus counter, `while flag` versus `while True` + break, polarity, and to where the round or the item step
+    lives.  Returns whether the loop has such a variable with per-item bindings (for the floor)."""
+    lc = Locals(f.node)
+    tests: list[ast.expr] = [loop.test] if isinstance(loop, ast.While) else []
+    for st in _shallow(loop.body):
+        if isinstance(st, ast.If) and any(isinstance(x, (ast.Break, ast.Return)) for x in _shallow([*st.body, *st.orelse])):
+            tests.append(st.test)
+    deciders = sorted({nm for t in tests for nm in names_in_load(t) if nm in lc.defs})
+    if not deciders:
+        return False
+    # -- which statements of the round run once per item
+    per_item: dict[str, set[int]] = {}
+    for g, stmts in scope:
+        inner = [n for st in (loop.body if g is f else g.node.body) for n in ast.walk(st) if isinstance(n, (ast.For, ast.AsyncFor, ast.While))]
+        per_item[g.qual] = {id(s) for lp in inner for st in [*lp.body, *lp.orelse] for s in ast.walk(st) if isinstance(s, ast.stmt)}
+    every: set[str] = set()   # helpers that are called from a per-item statement: all of their statements are per item
+    for _ in range(len(scope) + 1):
+        grown = False
+        for g, stmts in scope:
+            for st in stmts:
+                if g.qual in every or id(st) in per_item[g.qual]:
+                    for c in walk_own_calls(st):
+                        h = by_name.get(call_name(c).rsplit(".", 1)[-1])
+                        if h is not None and h.qual not in every and h.qual != f.qual:
+                            every.add(h.qual)
+                            grown = True
+        if not grown:
+            break
+    found = False
+    for d in deciders:
+        cls = same.find((f.qual, d))
+        rnd: list[tuple[str, Any, str]] = []    # bindings made once per round: (kind, detail, text)
+        item: list[tuple[str, Any, str, Any, ast.stmt]] = []
+        for g, stmts in scope:
+            for st in stmts:
+                got: list[tuple[str, ast.AST | None, ast.AST | None]] = [(t, v, None) for t, v in _bindings(st)]
+                if isinstance(st, ast.AugAssign) and _is_path(st.target):
+                    got.append((norm(st.target), st.value, st.op))
+                from ..cfg import walk_own
+
+                got += [(n.target.id, n.value, None) for n in walk_own(st) if isinstance(n, ast.NamedExpr) and isinstance(n.target, ast.Name)]
+                for t, v, aug in got:
+                    if same.find((g.qual, t)) != cls:
+                        continue
+                    mentions = v is not None and any(same.find((g.qual, p_)) == cls for p_ in _paths_in(v))
+                    if aug is not None:
+                        kind, detail = "accumulates", type(aug).__name__
+                    elif isinstance(v, ast.Constant):
+                        kind, detail = "constant", repr(v.value)
+                    elif mentions:
+                        kind, detail = "accumulates", type(v.op).__name__ if isinstance(v, (ast.BoolOp, ast.BinOp)) else "other"
+                    elif isinstance(v, ast.Call) and id(v) in alias_calls and not (g.qual in every or id(st) in per_item[g.qual]):
+                        continue  # the round's helper hands the variable back: its bindings there are judged under this class
+                    elif _examined_with_exit(g, st, {nm for q, nm in same.members(cls) if q == g.qual}):
+                        continue  # `x = step(item); if x: break`: the value is acted upon before the next item replaces it
+                    else:
+                        kind, detail = "computed", norm(v)[:60] if v is not None else "?"
+                    if g.qual in every or id(st) in per_item[g.qual]:
+                        item.append((kind, detail, norm(st)[:70], g, st))
+                    else:
+                        rnd.append((kind, detail, norm(st)[:70]))
+        if not item and not rnd:
+            continue  # decided outside the round (a limit handed in, ...): nothing to state
+        found = found or bool(item)
+        consts = sorted({x[1] for x in item if x[0] == "constant"})
+        overwritten = [x for x in item if x[0] == "computed"]
+        g0, st0 = (overwritten[0][3], overwritten[0][4]) if overwritten else (item[0][3], item[0][4]) if item else (f, loop)
+        key = f"{short(f)}::round-progress" + (f"[{deciders.index(d)}]" if len(deciders) > 1 else "")
+        rep.check(not overwritten and len(consts) <= 1, "R12.2", key,
+                  f"what decides about another round of the worklist loop is overwritten once per item ({[x[2] for x in overwritten] or consts}): "
+                  "the last item of a round decides alone, so whether a forward reference gets the round it needs depends on the order of "
+                  "definitions in the document", where(g0, st0), lhs=[(x[0], x[1]) for x in item],
+                  rhs="per item: one constant, or a value accumulated from the variable itself")
+        resets = sorted({x[1] for x in rnd if x[0] == "constant"})
+        if rnd and len(resets) == len({(x[0], x[1]) for x in rnd}):  # the round only ever puts it back to constants
+            absorbing = {"False": ("And", "BitAnd", "Mult"), "True": ("Or", "BitOr"), "0": ("Mult", "BitAnd", "And")}
+            moves = [x for x in item if (x[0] == "constant" and x[1] not in resets) or x[0] == "computed" or
+                     (x[0] == "accumulates" and not all(x[1] in absorbing.get(r, ()) for r in resets))]
+            rep.check(bool(moves), "R12.2", key + "::moved", "the round puts the variable that decides about another round back to "
+                      f"{resets} and nothing that is executed per item can move it away from that: the items of a round cannot ask for the "
+                      "next one, a forward reference is never retried", where(f, loop), lhs=[(x[0], x[1]) for x in item],
+                      rhs="a per-item binding to another constant / a non-absorbed accumulation")
+    return found
+
+
+def _examined_with_exit(g: Any, st: ast.stmt, names: set[str]) -> bool:
+    """the loop in which statement st of g binds one of `names` is left (break / return / raise) under a test of that variable: a value
+    that stops the traversal is not overwritten by the next item"""
+    from ..astutil import enclosing_loop_body
+
+    lp = enclosing_loop_body(g.node, st)
+    if lp is None:
+        return False
+    for x in _shallow(lp.body):
+        if isinstance(x, ast.If) and _paths_in(x.test) & names and \
+                any(isinstance(y, (ast.Break, ast.Return, ast.Raise)) for y in _shallow([*x.body, *x.orelse])):
+            return True
+    return False
 
 
 def walk_own_calls(st: ast.stmt) -> list[ast.Call]:
@@ -876,12 +1011,12 @@ def _late_filled_fields(rep: Report, ctx: Any) -> None:
         return
     names = {fld for _, fld in stale}
     seen: set[str] = set()
-    imported = _imported_templates(ctx.jinja.templates, nodes)
+    table = _subject_table(ctx.jinja, ji.render_kwargs, nodes)
     for tname, ti in sorted(ctx.jinja.templates.items()):
-        render_args = set(ji.render_kwargs.get(tname, {}))
         alias = _template_aliases(ti, nodes)
-        subjects = _subject_names(ti, render_args, tname in imported, nodes, alias)
-        for mname, (body, subj) in subjects.items():
+        bodies = {"<top>": ti.tree.body, **{m.name: m.body for m in ti.tree.find_all(nodes.Macro)}}
+        for mname, body in bodies.items():
+            subj = table[(tname, mname)]
             for g in _own_template_nodes(body, nodes):
                 if not (isinstance(g, nodes.Getattr) and g.attr in names):
                     continue
@@ -904,7 +1039,7 @@ def _late_filled_fields(rep: Report, ctx: Any) -> None:
                           f"filled in after construction ({stale[(q, fld)][0]}) and instances are copied without it ({stale[(q, fld)][1]}), so a "
                           "copy taken before the original was completed keeps the placeholder and the emitted text depends on the order "
                           "of definitions in the document", where=f"{PKG}/templates/{tname}:{getattr(g, 'lineno', 0)}",
-                          lhs=expr_text(base), rhs=f"a render argument of {tname}: {sorted(render_args)}")
+                          lhs=expr_text(base), rhs=f"a name for an object handed to render(), here: {sorted(subj)}")
     rep.floor("template_reads_of_late_filled_fields", len(seen), 5)
 
 
@@ -1018,39 +1153,121 @@ def _is_subject(e: Any, subj: set[str], nodes: Any, alias: dict[int, Any] | None
     return isinstance(e, nodes.Name) and (e.name in subj or (e.name[:1] == "(" and e.name[-1:] == ")" and e.name[1:-1] in subj))
 
 
-def _subject_names(ti: Any, render_args: set[str], is_imported: bool, nodes: Any,
-                   alias: dict[int, Any] | None = None) -> dict[str, tuple[list[Any], set[str]]]:
-    """scope name -> (body, names that denote a render argument there).  The top level sees the render arguments; a macro sees those its
-    parameters do not hide, plus every parameter to which all calls (the macro is private to a template nobody imports: calls by name
-    in the template itself) pass such a name."""
-    macros = {m.name: m for m in ti.tree.find_all(nodes.Macro)}
-    out: dict[str, tuple[list[Any], set[str]]] = {"<top>": (ti.tree.body, set(render_args))}
-    for m in macros.values():
-        out[m.name] = (m.body, set(render_args) - {a.name for a in m.args})
-    if is_imported:
-        return out
-    calls: dict[str, list[tuple[str, Any]]] = {}
-    for scope, (body, _) in out.items():
+def _named_templates(t: Any, templates: dict[str, Any], nodes: Any) -> list[str]:
+    """the templates an import / include expression may name: a constant, a list of constants, or - for a computed name `"dir/" + x` -
+    every template under the constant prefix"""
+    if isinstance(t, nodes.Const) and isinstance(t.value, str):
+        return [t.value] if t.value in templates else []
+    if isinstance(t, (nodes.List, nodes.Tuple)):
+        return sorted({x for item in t.items for x in _named_templates(item, templates, nodes)})
+    first = t
+    while isinstance(first, (nodes.Add, nodes.Concat)):
+        first = first.left if isinstance(first, nodes.Add) else first.nodes[0]
+    prefix = first.value if isinstance(first, nodes.Const) and isinstance(first.value, str) else ""
+    return [x for x in sorted(templates) if x.startswith(prefix)]
+
+
+def _raw_bound_names(ji_index: Any, ti: Any, nodes: Any) -> set[str]:
+    """the names the template binds itself (set / for / with targets), as spelled in its source: the canonical tree has renamed them, but
+    a template that is included reads the including context under the spelled names"""
+    try:
+        raw = ji_index.env.parse(ti.src)
+    except Exception:  # noqa: BLE001  (the canonical tree was parsed from the same source: cannot happen)
+        return {"*"}
+    out: set[str] = set()
+    for n in raw.find_all((nodes.For, nodes.Assign, nodes.AssignBlock, nodes.With)):
+        targets = n.targets if isinstance(n, nodes.With) else [n.target]
+        for t in targets:
+            out |= {x.name for x in [t, *t.find_all(nodes.Name)] if isinstance(x, nodes.Name)}
+    return out
+
+
+def _subject_table(jx: Any, render_kwargs: dict[str, Any], nodes: Any) -> dict[tuple[str, str], set[str]]:
+    """(template, scope) -> the names that denote, there, an object handed to render() itself.  The identity of a render argument is
+    followed through everything that hands the same object on without touching it:
+      * the top level of a rendered template sees its render arguments; a macro sees those its parameters do not hide;
+      * a macro parameter denotes one when every call of the macro - in its own template or in any template that imports it
+        (`from T import m`, `import T as a` + `a.m(..)`, computed names count for every template under the constant prefix) - passes
+        such a name (greatest fixed point: a macro that passes its parameter on to itself does not lose it);
+      * the top level of a template that is pulled in by `include` sees what every including place sees, minus the names the including
+        template binds itself (set / for / with - they would hide the render argument); `without context` sees nothing.
+    Template-local names for an access path (`set` / `with`) are looked through (alias tables)."""
+    templates = jx.templates
+    alias = {t: _template_aliases(ti, nodes) for t, ti in templates.items()}
+    scopes: dict[tuple[str, str], list[Any]] = {}
+    params: dict[tuple[str, str], list[str]] = {}
+    for t, ti in templates.items():
+        scopes[(t, "<top>")] = ti.tree.body
+        for m in ti.tree.find_all(nodes.Macro):
+            scopes[(t, m.name)] = m.body
+            params[(t, m.name)] = [a.name for a in m.args]
+    # what a called name denotes in template t
+    direct: dict[str, dict[str, set[tuple[str, str]]]] = {}   # t -> local name -> {(template, macro)}
+    modules: dict[str, dict[str, set[str]]] = {}              # t -> import alias -> {template}
+    for t, ti in templates.items():
+        d = direct.setdefault(t, {})
+        for m in ti.tree.find_all(nodes.Macro):
+            d.setdefault(m.name, set()).add((t, m.name))
+        for n in ti.tree.find_all(nodes.FromImport):
+            for item in n.names:
+                src, dst = (item, item) if isinstance(item, str) else item
+                for x in _named_templates(n.template, templates, nodes):
+                    if (x, src) in params:
+                        d.setdefault(dst, set()).add((x, src))
+        for n in ti.tree.find_all(nodes.Import):
+            modules.setdefault(t, {}).setdefault(n.target, set()).update(_named_templates(n.template, templates, nodes))
+    calls: dict[tuple[str, str], list[tuple[str, str, Any]]] = {}
+    includes: dict[str, list[tuple[str, str, bool]]] = {}
+    for (t, scope), body in scopes.items():
         for n in _own_template_nodes(body, nodes):
-            if isinstance(n, nodes.Call) and isinstance(n.node, nodes.Name) and n.node.name in macros:
-                calls.setdefault(n.node.name, []).append((scope, n))
-    for _ in range(len(macros) + 1):
+            if isinstance(n, nodes.Call):
+                callees: set[tuple[str, str]] = set()
+                if isinstance(n.node, nodes.Name):
+                    callees = direct[t].get(n.node.name, set())
+                elif isinstance(n.node, nodes.Getattr) and isinstance(n.node.node, nodes.Name):
+                    callees = {(x, n.node.attr) for x in modules.get(t, {}).get(n.node.node.name, ()) if (x, n.node.attr) in params}
+                for c in sorted(callees):
+                    calls.setdefault(c, []).append((t, scope, n))
+            elif isinstance(n, nodes.Include):
+                for x in _named_templates(n.template, templates, nodes):
+                    includes.setdefault(x, []).append((t, scope, bool(n.with_context)))
+    universe = {k for kw in render_kwargs.values() for k in kw}
+    top: dict[str, set[str]] = {}
+    for t in templates:
+        top[t] = set(render_kwargs[t]) if t in render_kwargs else set(universe) if t in includes else set()
+    psub = {(t, m, a): bool(calls.get((t, m))) for (t, m), ps in params.items() for a in ps}
+    bound = {t: _raw_bound_names(jx, templates[t], nodes) for t in {x for sites in includes.values() for x, _, _ in sites}}
+
+    def seen_in(t: str, scope: str) -> set[str]:
+        if scope == "<top>":
+            return set(top[t])
+        ps = params[(t, scope)]
+        return (top[t] - set(ps)) | {a for a in ps if psub[(t, scope, a)]}
+
+    for _ in range(len(psub) + len(templates) + 2):
         changed = False
-        for m in macros.values():
-            for i, a in enumerate(m.args):
-                if a.name in out[m.name][1] or not calls.get(m.name):
+        for t, sites in includes.items():
+            new = set(top[t])
+            for x, scope, with_context in sites:
+                if not with_context or "*" in bound[x]:
+                    new = set()
+                    break
+                new &= seen_in(x, scope) - bound[x] - set(params.get((x, scope), ()))
+            if new != top[t]:
+                top[t], changed = new, True
+        for (t, m), ps in params.items():
+            for i, a in enumerate(ps):
+                if not psub[(t, m, a)]:
                     continue
-                ok = True
-                for scope, c in calls[m.name]:
-                    arg = c.args[i] if i < len(c.args) else next((k.value for k in c.kwargs if k.key == a.name), None)
-                    if arg is None or c.dyn_args is not None or c.dyn_kwargs is not None or not _is_subject(arg, out[scope][1], nodes, alias):
-                        ok = False
-                if ok:
-                    out[m.name][1].add(a.name)
-                    changed = True
+                for x, scope, c in calls[(t, m)]:
+                    arg = c.args[i] if i < len(c.args) else next((k.value for k in c.kwargs if k.key == a), None)
+                    if arg is None or c.dyn_args is not None or c.dyn_kwargs is not None or \
+                            not _is_subject(arg, seen_in(x, scope), nodes, alias[x]):
+                        psub[(t, m, a)], changed = False, True
+                        break
         if not changed:
             break
-    return out
+    return {(t, scope): seen_in(t, scope) for (t, scope) in scopes}
 
 
 def _imported_templates(templates: dict[str, Any], nodes: Any, cached_only: bool = False) -> dict[str, str]:
@@ -1061,16 +1278,7 @@ def _imported_templates(templates: dict[str, Any], nodes: Any, cached_only: bool
         for n in ti.tree.find_all((nodes.Import, nodes.FromImport)):
             if cached_only and n.with_context:
                 continue
-            t = n.template
-            if isinstance(t, nodes.Const) and isinstance(t.value, str):
-                targets = [t.value] if t.value in templates else []
-            else:
-                first = t
-                while isinstance(first, (nodes.Add, nodes.Concat)):
-                    first = first.left if isinstance(first, nodes.Add) else first.nodes[0]
-                prefix = first.value if isinstance(first, nodes.Const) and isinstance(first.value, str) else ""
-                targets = [x for x in templates if x.startswith(prefix)]
-            for x in targets:
+            for x in _named_templates(n.template, templates, nodes):
                 out.setdefault(x, f"{tname}:{n.lineno}")
     return out
 
@@ -1565,12 +1773,29 @@ def _redeclaration_guards(ix: Any, it: Any, types_of: Any, call_targets: Any) ->
     funcs = [f for f in ix.all_functions if not f.module.name.startswith(DOC_PKG)]
     repo_classes = {q for q in ix.classes if not q.startswith(DOC_PKG + ".")}
 
-    def lookup(v: ast.AST | None, lc: Locals, depth: int = 2) -> bool:
-        if isinstance(v, ast.NamedExpr):
+    locs = {f.qual: Locals(f.node) for f in funcs}
+    by_qual = {f.qual: f for f in funcs}
+
+    def lookup(v: ast.AST | None, f: Any, depth: int = 2) -> bool:
+        """v is an entry taken out of a registry: `R.d[k]` / `R.d.get(k)` on a dict held by a repository object (also through a local
+        name for the dict), or the result of a function that returns such an entry (an accessor of the registry)"""
+        lc = locs[f.qual]
+        if isinstance(v, (ast.NamedExpr, ast.Await)):
             v = v.value
+        if isinstance(v, ast.IfExp):
+            return lookup(v.body, f, depth) or lookup(v.orelse, f, depth)
         base = v.value if isinstance(v, ast.Subscript) else \
             v.func.value if isinstance(v, ast.Call) and isinstance(v.func, ast.Attribute) and v.func.attr == "get" and v.args else None
-        if base is None or "dict" not in types_of(base):
+        if base is None:
+            if isinstance(v, ast.Call) and depth > 0:
+                for g in call_targets(v, f):
+                    if g.qual in locs and g.qual != f.qual:
+                        for r in [r for r in _own_nodes(g.node) if isinstance(r, ast.Return) and r.value is not None]:
+                            vals = locs[g.qual].values_of(r.value.id) if isinstance(r.value, ast.Name) else [r.value]
+                            if any(lookup(x, g, depth - 1) for x in vals):
+                                return True
+            return False
+        if "dict" not in types_of(base):
             return False
         if isinstance(base, ast.Name) and depth > 0:
             vals = lc.values_of(base.id)
@@ -1579,46 +1804,69 @@ def _redeclaration_guards(ix: Any, it: Any, types_of: Any, call_targets: Any) ->
 
     # local (or parameter) that names a registry entry -> the functions in which the lookup was made
     entries: dict[str, dict[str, set[str]]] = {}
-    locs = {f.qual: Locals(f.node) for f in funcs}
-    by_qual = {f.qual: f for f in funcs}
     for f in funcs:
         for name, ds in locs[f.qual].defs.items():
-            if any(k == "assign" and lookup(v, locs[f.qual]) for k, _, v in ds):
+            if any(k == "assign" and lookup(v, f) for k, _, v in ds):
                 entries.setdefault(f.qual, {}).setdefault(name, set()).add(f.qual)
     for _ in range(2):  # an entry handed to a helper is an entry there
         for f in funcs:
             mine = entries.get(f.qual, {})
             for c in [n for n in ast.walk(f.node) if isinstance(n, ast.Call)]:
                 args = [*c.args, *[k.value for k in c.keywords]]
-                if not any((isinstance(a, ast.Name) and a.id in mine) or lookup(a, locs[f.qual]) for a in args):
+                if not any((isinstance(a, ast.Name) and a.id in mine) or lookup(a, f) for a in args):
                     continue
                 for g in call_targets(c, f):
                     for p_, a in _bind_args(c, g):
                         if isinstance(a, ast.Name) and a.id in mine:
                             entries.setdefault(g.qual, {}).setdefault(p_, set()).update(mine[a.id])
-                        elif lookup(a, locs[f.qual]):
+                        elif lookup(a, f):
                             entries.setdefault(g.qual, {}).setdefault(p_, set()).add(f.qual)
 
-    def builds(origin: str, q: str) -> bool:
-        """the function that looked the entry up goes on to create an object of class q (itself or in its private helpers): it is the
-        builder of a declaration of that class, the comparison is how it recognises a re-declaration"""
-        from ..astutil import region
+    from ..astutil import region
 
-        o = by_qual[origin]
-        for g in region(ix, o):
-            for c in [n for n in ast.walk(g.node) if isinstance(n, ast.Call)]:
+    regions: dict[str, list[Any]] = {}
+
+    def region_of(g: Any) -> list[Any]:
+        if g.qual not in regions:
+            regions[g.qual] = region(ix, g)
+        return regions[g.qual]
+
+    # who can learn the verdict of a test made in function x: x itself and the functions that call it (call edges of the abstract
+    # interpreter, and the delegation to private helpers that `region` sees by name)
+    callers: dict[str, set[str]] = {}
+    for src, dsts in it.call_edges.items():
+        for d in dsts:
+            callers.setdefault(d, set()).add(src)
+    for g in funcs:
+        for h in region_of(g)[1:]:
+            callers.setdefault(h.qual, set()).add(g.qual)
+
+    def instantiates(g: Any, q: str) -> bool:
+        for h in region_of(g):
+            for c in [n for n in ast.walk(h.node) if isinstance(n, ast.Call)]:
                 last = call_name(c).rsplit(".", 1)[-1]
-                if last == ix.classes[q].name or (last == "cls" and g.cls is not None and g.cls.qual == q):
+                if last == ix.classes[q].name or (last == "cls" and h.cls is not None and h.cls.qual == q):
                     return True
+        return False
+
+    def builds(origin: str, q: str) -> bool:
+        """the verdict of the test reaches a function that goes on to create an object of class q: the function that looked the entry up
+        or made the comparison, or one that calls it (directly or through up to three levels of helpers / methods the test was moved
+        into) - that function is the builder of a declaration of the class, the comparison is how it recognises a re-declaration"""
+        level, seen_ = {origin}, {origin}
+        for _ in range(4):
+            if any(x in by_qual and instantiates(by_qual[x], q) for x in level):
+                return True
+            level = {c for x in level for c in callers.get(x, ())} - seen_
+            seen_ |= level
         return False
 
     out = []
     for f in funcs:
         mine = entries.get(f.qual, {})
-        lc = locs[f.qual]
 
-        def is_entry(e: ast.AST) -> bool:
-            return (isinstance(e, ast.Name) and e.id in mine) or lookup(e, lc)
+        def is_entry(e: ast.AST, f: Any = f, mine: dict[str, set[str]] = mine) -> bool:
+            return (isinstance(e, ast.Name) and e.id in mine) or lookup(e, f)
 
         def origins(e: ast.AST) -> set[str]:
             return mine[e.id] if isinstance(e, ast.Name) and e.id in mine else {f.qual}
@@ -1651,7 +1899,7 @@ def _redeclaration_guards(ix: Any, it: Any, types_of: Any, call_targets: Any) ->
                     if isinstance(a.value, ast.Name) and cands & narrowed.get(a.value.id, set()):
                         cands &= narrowed[a.value.id]
                     for q in sorted(cands):
-                        if not any(builds(o, q) for o in origins(a.value)):
+                        if not any(builds(o, q) for o in sorted(origins(a.value) | {f.qual})):
                             continue
                         c = ix.classes[q]
                         declared = it.tr.from_ann(c.module, ix.all_fields(c).get(a.attr)).types
@@ -1762,16 +2010,26 @@ def _redeclared_classes(rep: Report, ctx: Any) -> None:
     for f, n, q, fld, blind in guards:
         compared.setdefault(q, {})[fld] = compared.get(q, {}).get(fld, False) or blind
         where_.setdefault((q, fld), where(f, n))
-    rep.floor("redeclaration_tests_on_registered_entries", len({(q, fld) for _, _, q, fld, _ in guards}), 2)
+    rep.floor("redeclaration_tests_on_registered_entries", len({(q, fld) for _, _, q, fld, _ in guards}), 1)
     rep.indexed["classes_that_may_be_redeclared"] = sorted(f"{q.rsplit('.', 1)[-1]}.{fld}" + (" (order ignored)" if b else "")
                                                            for q, d in compared.items() for fld, b in d.items())
     n_reads = 0
     key_fields: dict[str, set[str]] = {}
+    included_by: dict[str, set[str]] = {}
+    for tname, ti in sorted(ctx.jinja.templates.items()):
+        for n in ti.tree.find_all(nodes.Include):
+            for x in _named_templates(n.template, ctx.jinja.templates, nodes):
+                included_by.setdefault(x, set()).add(tname)
+    for _ in range(len(included_by)):  # transitively
+        for x in included_by:
+            included_by[x] |= {y for t in sorted(included_by[x]) for y in included_by.get(t, ())}
     for tname, ti in sorted(ctx.jinja.templates.items()):
         parent = {id(ch): p_ for p_ in ti.tree.find_all(nodes.Node) for ch in p_.iter_child_nodes()}
         parent.update({id(ch): ti.tree for ch in ti.tree.iter_child_nodes()})
         alias = _template_aliases(ti, nodes)
-        rendered_with = {q for av in ji.render_kwargs.get(tname, {}).values() for q in av.types if q in compared}
+        # (a template that is pulled in by `include` is rendered with what its including templates are rendered with)
+        rendered_with = {q for t in sorted({tname} | included_by.get(tname, set())) for av in ji.render_kwargs.get(t, {}).values()
+                         for q in av.types if q in compared}
         scopes: dict[str, list[Any]] = {"<top>": ti.tree.body}
         scopes.update({m.name: m.body for m in ti.tree.find_all(nodes.Macro)})
         seen: set[str] = set()
